@@ -49,3 +49,30 @@ pub(crate) fn krow(s: &AnnotationDataSet, k: usize) -> (usize, u32, u32, u32, u3
         }
     }
 }
+
+/// the change flag (an Arc<RwLock<bool>> consulted only by serialisation) is not a subject of C01
+pub(crate) trait MarkStub { fn mark_changed_stub(&self) {} }
+impl<T> MarkStub for T {}
+
+pub(crate) fn want_row(keys_of: &[u32; 3], k: usize, without: Option<usize>) -> (usize, u32, u32, u32, u32) {
+    let mut r = [99u32; 4];
+    let mut n = 0;
+    let mut d = 0;
+    while d < 3 {
+        if keys_of[d] as usize == k && Some(d) != without { r[n] = d as u32; n += 1; }
+        d += 1;
+    }
+    (n, r[0], r[1], r[2], r[3])
+}
+
+
+pub(crate) fn want_row_with(keys_of: &[u32; 3], listed: &[u32; 3], k: usize) -> (usize, u32, u32, u32, u32) {
+    let mut r = [99u32; 4];
+    let mut n = 0;
+    let mut d = 0;
+    while d < 3 {
+        if keys_of[d] as usize == k { r[n] = listed[d]; n += 1; }
+        d += 1;
+    }
+    (n, r[0], r[1], r[2], r[3])
+}
